@@ -640,7 +640,13 @@ impl<'r> Gen<'r> {
             let mut c = m.clone();
             let span = if compensating && k == 0 { q } else if self.rng.chance(3, 4) { p } else { self.rng.below(4) as u128 };
             let ospan = if compensating && k == 0 { p } else if self.rng.chance(3, 4) { span } else { self.rng.below(4) as u128 };
-            c.start = Some(m.end.unwrap() + 1);
+            // usually adjacent; now and then overlapping the previous piece by exactly one line,
+            // starting on the same line, or nested inside it
+            c.start = Some(match self.rng.below(10) {
+                0 => m.end.unwrap(),
+                1 => m.start.unwrap(),
+                _ => m.end.unwrap() + 1,
+            });
             c.end = Some(c.start.unwrap() + span);
             c.ostart = Some(m.oend.unwrap_or(m.ostart.unwrap()) + 1);
             c.oend = if self.rng.chance(1, 8) { None } else { Some(c.ostart.unwrap() + ospan) };
